@@ -3,6 +3,7 @@
   (`_LINE_BREAK_RE.split`) for property C09.
 -/
 import Penman.Lexer
+import Penman.Proofs.LexLemmas
 import Penman.Main
 namespace Penman.Framing
 open Penman
